@@ -213,6 +213,144 @@ fn fam_word_boundary(d: &mut Domain, algos: &[Algo]) {
     }
 }
 
+/// Inputs with an all-zero interior or low 64-bit limb: a*2^(64k) + b. Kept when the part left
+/// after dividing out the factors below 2^16 (reference trial division) is 1 or prime, so the
+/// prime multiset is known and factor() only has trial division and a primality test to do.
+/// The trial division at the top of factor() uses the multiword long division.
+fn fam_zero_limb(d: &mut Domain, algos: &[Algo], per_shape: usize) {
+    let small = rm::primes_below(1 << 16);
+    for k in [2u32, 3, 4, 7] {
+        for a in [1u64, 3, 5 << 10, (1 << 40) + 15] {
+            let base = W::from_digit(a) << (64 * k);
+            let base_mod: Vec<u64> = small.iter().map(|&q| (base % W::from_digit(q)).digits()[0]).collect();
+            let (mut with_small, mut plain) = (0usize, 0usize);
+            for b in 1..6000u64 {
+                if with_small >= per_shape && plain >= per_shape / 4 {
+                    break;
+                }
+                let n = base + W::from_digit(b);
+                let mut rest = n;
+                let mut primes: Vec<Uint> = vec![];
+                for (i, &q) in small.iter().enumerate() {
+                    if (base_mod[i] + b % q) % q != 0 {
+                        continue;
+                    }
+                    let qw = W::from_digit(q);
+                    while (rest % qw).is_zero() {
+                        rest = rest / qw;
+                        primes.push(u(q));
+                    }
+                }
+                if primes.len() > 12 {
+                    continue;
+                }
+                if primes.is_empty() && plain >= per_shape / 4 {
+                    continue;
+                }
+                if !primes.is_empty() && with_small >= per_shape {
+                    continue;
+                }
+                if rest > W::ONE {
+                    if !rm::is_prime_w(&rest) {
+                        continue;
+                    }
+                    primes.push(rm::w_to(&rest));
+                }
+                if primes.len() == 1 {
+                    plain += 1;
+                } else {
+                    with_small += 1;
+                }
+                primes.sort();
+                for &al in algos {
+                    d.push(rm::w_to(&n), al, "zero-limb", Some(primes.clone()));
+                }
+            }
+        }
+    }
+}
+
+/// n = p^2 * q * r with p-1 and q-1 smooth (so P-1 finds p and q in different gcd windows of
+/// one run, p twice) and r resistant: the batch-gcd cofactor bookkeeping with a repeated prime.
+fn fam_pm1_repeated(d: &mut Domain, algos: &[Algo], count: usize) {
+    // smooth primes: 1 + 2 * product of primes below 1000 picked deterministically
+    let sp = rm::primes_below(1000);
+    let smooth_prime = |bits: u32, salt: u64, big: u64| -> W {
+        let mut z = salt;
+        loop {
+            let mut m = W::TWO * W::from_digit(big);
+            while m.bits() < bits {
+                z = mix64(z);
+                m = m * W::from_digit(sp[(z % sp.len() as u64) as usize]);
+            }
+            let p = m + W::ONE;
+            if p.bits() <= bits + 9 && rm::is_prime_w(&p) {
+                return p;
+            }
+        }
+    };
+    for i in 0..count as u64 {
+        // p-1 is smooth over small primes (an early gcd window); q-1 has one larger prime
+        // factor, so q enters in a later window of stage 1 or in stage 2
+        let p = smooth_prime(28 + (i % 3) as u32, 1000 + i, 1);
+        let q = smooth_prime(33 + (i % 2) as u32, 2000 + i, [65537u64, 10007, 40009, 100003, 250007, 1][(i % 6) as usize]);
+        if p == q {
+            continue;
+        }
+        // r: a prime whose r-1 has a large prime factor (2*s+1 with s prime)
+        let mut s = rm::next_prime_w(&(W::ONE << (38 + (i % 4) as u32)));
+        let r = loop {
+            let cand = s * W::TWO + W::ONE;
+            if rm::is_prime_w(&cand) {
+                break cand;
+            }
+            s = rm::next_prime_w(&(s + W::ONE));
+        };
+        let n = p * p * q * r;
+        let mut primes = vec![rm::w_to(&p), rm::w_to(&p), rm::w_to(&q), rm::w_to(&r)];
+        primes.sort();
+        for &al in algos {
+            d.push(rm::w_to(&n), al, "pm1-repeated", Some(primes.clone()));
+        }
+        // and the squarefree control with a cube
+        let n3 = p * p * p * q;
+        let mut primes3 = vec![rm::w_to(&p), rm::w_to(&p), rm::w_to(&p), rm::w_to(&q)];
+        primes3.sort();
+        for &al in algos {
+            d.push(rm::w_to(&n3), al, "pm1-repeated", Some(primes3.clone()));
+        }
+    }
+}
+
+/// Every product p*q with p, q from two windows of consecutive primes: balanced semiprimes of
+/// a given size (the sizes where automatic mode relies on its last-resort ECM pass).
+fn fam_balanced(d: &mut Domain, algos: &[Algo], bits: u32, npr: usize) {
+    let lo = (W::ONE << (bits / 2 - 1)) + (W::ONE << (bits / 2 - 2)); // 0.75 * 2^(bits/2)
+    let hi = W::ONE << (bits - bits / 2);
+    let mut ps = vec![];
+    let mut p = lo;
+    for _ in 0..npr {
+        p = rm::next_prime_w(&(p + W::ONE));
+        ps.push(p);
+    }
+    let mut qs = vec![];
+    let mut q = hi - (hi >> 3u32);
+    for _ in 0..npr {
+        q = rm::next_prime_w(&(q + W::ONE));
+        qs.push(q);
+    }
+    for p in &ps {
+        for q in &qs {
+            let n = *p * *q;
+            let mut pr = vec![rm::w_to(p), rm::w_to(q)];
+            pr.sort();
+            for &al in algos {
+                d.push(rm::w_to(&n), al, "balanced-window", Some(pr.clone()));
+            }
+        }
+    }
+}
+
 fn product(v: &[Uint]) -> Option<Uint> {
     let mut bits = 0;
     for x in v {
@@ -391,6 +529,8 @@ pub fn run_c01(ctx: &Ctx) -> Report {
     fam_powers(&mut d, ctx.pick(1 << 10, 1 << 11), &ALL);
     fam_smooth_prefix(&mut d, &ALL);
     fam_word_boundary(&mut d, &[Algo::Auto, Algo::Rho, Algo::Squfof, Algo::Qs64, Algo::Ecm, Algo::Ecm128, Algo::Siqs]);
+    fam_zero_limb(&mut d, if ctx.quick() { &[Algo::Auto][..] } else { &[Algo::Auto, Algo::Pm1, Algo::Ecm][..] }, ctx.pick(8, 40));
+    fam_pm1_repeated(&mut d, if ctx.quick() { &[Algo::Pm1][..] } else { &[Algo::Pm1, Algo::Auto][..] }, ctx.pick(6, 24));
     let maxbits = |a: Algo| -> u32 {
         match a {
             Algo::Auto | Algo::Siqs => 110,
@@ -572,6 +712,12 @@ pub fn run_c02(ctx: &Ctx) -> Report {
     fam_powers(&mut d, ctx.pick(1 << 10, 1 << 12), &[Algo::Auto]);
     fam_smooth_prefix(&mut d, &[Algo::Auto, Algo::Ecm, Algo::Siqs]);
     fam_word_boundary(&mut d, &[Algo::Auto, Algo::Ecm128]);
+    fam_zero_limb(&mut d, &[Algo::Auto], ctx.pick(8, 40));
+    fam_pm1_repeated(&mut d, if ctx.quick() { &[Algo::Pm1][..] } else { &[Algo::Auto, Algo::Pm1][..] }, ctx.pick(4, 24));
+    // balanced semiprimes where automatic mode ends in its last-resort ECM pass
+    fam_balanced(&mut d, &[Algo::Auto], 80, ctx.pick(40, 110));
+    fam_balanced(&mut d, &[Algo::Auto], 76, ctx.pick(24, 80));
+    fam_balanced(&mut d, &[Algo::Auto], 66, ctx.pick(16, 60));
     // adversarial composites for the primality tests factor() relies on: the minimal strong
     // pseudoprimes psi_k, Chernick Carmichael numbers (also above 64 bits), and their products
     // with small primes / squares (the perfect-power and trial-division paths)
@@ -786,6 +932,9 @@ pub fn run_c03(ctx: &Ctx) -> Report {
     fam_powers(&mut d, ctx.pick(600, 1 << 11), &ALL);
     fam_smooth_prefix(&mut d, &ALL);
     fam_word_boundary(&mut d, &[Algo::Auto, Algo::Rho, Algo::Squfof, Algo::Qs64, Algo::Ecm, Algo::Ecm128, Algo::Siqs, Algo::Pm1]);
+    // (sieve selectors do not test primality first: they are not driven on these large inputs)
+    fam_zero_limb(&mut d, if ctx.quick() { &[Algo::Auto][..] } else { &[Algo::Auto, Algo::Pm1, Algo::Ecm, Algo::Rho][..] }, ctx.pick(8, 30));
+    fam_pm1_repeated(&mut d, if ctx.quick() { &[Algo::Pm1][..] } else { &[Algo::Pm1, Algo::Auto, Algo::Ecm][..] }, ctx.pick(4, 24));
     // (d) edge set for all selectors (all <= 64 bits)
     for n in edge_set() {
         for &a in &ALL {
